@@ -1,5 +1,7 @@
 use crate::ast::{BinaryOp, Commented, Expr, RecordEntry, RecordKey, SpannedExpr};
-use crate::ast_to_source::{expr_to_source, format_record_key, needs_parens_in_binop};
+use crate::ast_to_source::{
+    Position, expr_to_source, format_record_key, needs_parens, needs_parens_in_binop,
+};
 use crate::values::LambdaArg;
 
 const DEFAULT_MAX_COLUMNS: usize = 80;
@@ -59,12 +61,18 @@ fn format_single_line(expr: &SpannedExpr) -> String {
             } else {
                 format!("({})", args_str.join(", "))
             };
-            format!("{} => {}", args_part, format_single_line(body))
+            let body_str = format_single_line(body);
+            if needs_parens(body, Position::LambdaBody) {
+                format!("{} => ({})", args_part, body_str)
+            } else {
+                format!("{} => {}", args_part, body_str)
+            }
         }
         Expr::Call { func, args } => {
-            let func_str = match &func.node {
-                Expr::Lambda { .. } => format!("({})", format_single_line(func)),
-                _ => format_single_line(func),
+            let func_str = if needs_parens(func, Position::PostfixBase) {
+                format!("({})", format_single_line(func))
+            } else {
+                format_single_line(func)
             };
             let args_str: Vec<String> = args.iter().map(format_single_line).collect();
             format!("{}({})", func_str, args_str.join(", "))
@@ -286,8 +294,17 @@ fn format_lambda(args: &[LambdaArg], body: &SpannedExpr, max_cols: usize, indent
         return format!("{} {}", args_part, body_formatted);
     }
 
+    // A body such as `l via f` has to stay parenthesised
+    let wrap = |formatted_body: String| {
+        if needs_parens(body, Position::LambdaBody) {
+            format!("({})", formatted_body)
+        } else {
+            formatted_body
+        }
+    };
+
     // Try single-line first for other body types
-    let single_line_body = format_expr_impl(body, max_cols, indent);
+    let single_line_body = wrap(format_expr_impl(body, max_cols, indent));
     let single_line = format!("{} {}", args_part, single_line_body);
 
     // Check only if it's actually single-line and fits
@@ -301,7 +318,7 @@ fn format_lambda(args: &[LambdaArg], body: &SpannedExpr, max_cols: usize, indent
         "{}\n{}{}",
         args_part,
         make_indent(body_indent),
-        format_expr_impl(body, max_cols, body_indent)
+        wrap(format_expr_impl(body, max_cols, body_indent))
     )
 }
 
@@ -395,9 +412,10 @@ fn format_call_multiline(
     max_cols: usize,
     indent: usize,
 ) -> String {
-    let func_str = match &func.node {
-        Expr::Lambda { .. } => format!("({})", format_expr_impl(func, max_cols, indent)),
-        _ => format_expr_impl(func, max_cols, indent),
+    let func_str = if needs_parens(func, Position::PostfixBase) {
+        format!("({})", format_expr_impl(func, max_cols, indent))
+    } else {
+        format_expr_impl(func, max_cols, indent)
     };
 
     if args.is_empty() {
